@@ -112,6 +112,46 @@ static void run(Ctx& c) {
         // the known class (forest created from a file written by a non-identity-reduced relation forest) must not hide the rest of the case
         if (v.key.rfind("C14:read:forest-from-file:relation-written-from-", 0) == 0) c.viol(v.key, v.detail); else throw;
     }
+    // ---- the domain travels in the same file (domain::write, then the forest): a reader that creates the domain AND the
+    //      forest from the file must see the same variables and the same functions ----------------------------------------
+    {
+        std::ostringstream o2;
+        { phase("write:domain"); ostream_output out(o2); w.dom->write(out); mdd_writer W(out, F1); for (auto& e : E) W.writeRootEdge(e); W.finish(); }
+        const std::string file2 = o2.str();
+        { std::istringstream iss(file2); istream_input in(iss); phase("verify:domain");
+          try { w.dom->verify(in); } catch (MEDDLY::error& e) { throw Violation("C14:domain:verify-rejects-own-output", std::string("domain::verify on the domain's own output raised ") + e.getName() + " shape " + sh.str()); } }
+        std::istringstream iss(file2); istream_input in(iss);
+        phase("read:domain");
+        domain* d2 = nullptr;
+        try { d2 = domain::create(in); } catch (MEDDLY::error& e) { throw Violation(std::string("C14:domain:read:error:") + e.getName(), "domain::create(input) on the output of domain::write raised " + std::string(e.getName()) + " shape " + sh.str()); }
+        if (int(d2->getNumVariables()) != L) throw Violation("C14:domain:read:variable-count", "domain written with " + tos(L) + " variables, read back with " + tos(d2->getNumVariables()));
+        for (int v = 1; v <= L; v++) if (d2->getVariableBound(unsigned(v), false) != sh.sizes[size_t(v)] || d2->getVariableBound(unsigned(v), true) != sh.sizes[size_t(v)])
+            throw Violation("C14:domain:read:bounds-differ", "domain " + sh.str() + " written and read back: variable " + tos(v) + " has bound " + tos(d2->getVariableBound(unsigned(v), false)) + " (file head: " + file2.substr(0, 60) + ")");
+        c.count("domains_read_back");
+        const bool nonDefaultRel = rel && fs1.rr != reduction_rule::IDENTITY_REDUCED;
+        const std::string kt = nonDefaultRel ? std::string("C14:read:forest-from-file:relation-written-from-") + shortNameOf(fs1.rr) + "-forest" : kb + ":read:domain-and-forest-from-file";
+        try {
+            phase("read:domain-and-forest-from-file:" + fs1.kindStr());
+            mdd_reader* R = nullptr;
+            try { R = new mdd_reader(in, d2); } catch (MEDDLY::error& e) { throw Violation(kt + ":error:" + e.getName(), std::string("reading the forest after the domain raised ") + e.getName()); }
+            forest* FT = R->getForest();
+            if (!FT || R->numRoots() != E.size()) throw Violation(kt + ":root-count", "file has " + tos(E.size()) + " roots, reader reports " + tos(R->numRoots()));
+            std::vector<dd_edge> back;
+            for (size_t i = 0; i < E.size(); i++) {
+                dd_edge e(FT); R->readRootEdge(e); back.push_back(e);
+                Table got = evalAll(w, e); c.count("points_evaluated", long(got.size()));
+                long d = firstDiff(got, T[i], tol);
+                if (d >= 0) throw Violation(kt + ":wrong-value", "root " + tos(i) + " read into a forest and domain created from the file: at " + pointStr(w, rel, size_t(d)) + " read=" + got[size_t(d)].str() + " written=" + T[i][size_t(d)].str() + " shape " + sh.str());
+            }
+            delete R;
+            FSpec f3 = fs1; f3.rr = FT->getReductionRule();
+            try { auditForest(FT, f3.kindStr(), c, "C14"); }
+            catch (Violation& v) { if (!nonDefaultRel) throw; throw Violation(kt + ":not-canonical:" + v.key.substr(v.key.find(':', 4) + 1, v.key.rfind(':') - v.key.find(':', 4) - 1), v.detail); }
+            c.count("reads_domain-and-forest-from-file");
+        } catch (Violation& v) {
+            if (v.key.rfind("C14:read:forest-from-file:relation-written-from-", 0) == 0) c.viol(v.key, v.detail); else throw;
+        }
+    }
     auditForest(F1, fs1.kindStr(), c, "C14");
     auditForest(F2, fs2.kindStr(), c, "C14");
     uint64_t sig = hashstr(fs1.str().c_str()) ^ hashstr(sh.str().c_str());
